@@ -184,11 +184,6 @@ GHOST = {
                                  "use('mul_le', c[i], LIML(l, i), l[i] - 1, LIML(l, i))"]}),
 }
 
-# ------------------------------------------------------------------------------------------ the class
-FIELDS = [("f_num_digits", "Int"), ("f_gray_code", SEQ), ("f_n_ary_limits", SEQ), ("f_counter_chain", SEQ),
-          ("f_offset_max", "Int"), ("f_offset", "Int")]
-
-
 def inv_len(g="f_gray_code", c="f_counter_chain", l="f_n_ary_limits", n="f_num_digits"):
     return [f"len({g}) == {n}", f"len({c}) == {n}", f"len({l}) == {n}"]
 
@@ -204,6 +199,72 @@ def inv_body(g="f_gray_code", c="f_counter_chain", l="f_n_ary_limits", off="f_of
 
 def inv():
     return inv_len() + inv_body()
+
+
+def inv_body_of(g, c, l, off, omax, n):
+    return inv_body(g, c, l, off, omax, n)
+
+
+# ---- C11: the counter's state is a function of its offset (mixed-radix digits are unique, the code is determined by them)
+N.LEMMAS.update({
+    "VAL_unique": dict(params=[("c1", SEQ), ("c2", SEQ), ("l", SEQ), ("n", "Int")], lean="ghost lemma C04_gray.val_unique (pyvc)",
+                       formula="implies(0 <= n and forall(lambda q: l[q] >= 1 and 0 <= c1[q] and c1[q] < l[q] and 0 <= c2[q] and c2[q] < l[q], 0, n) "
+                               "and VAL(c1, l, n) == VAL(c2, l, n), forall(lambda q: c1[q] == c2[q], 0, n))"),
+    "GRAY_unique": dict(params=[("g1", SEQ), ("g2", SEQ), ("c", SEQ), ("l", SEQ), ("n", "Int")], lean="ghost lemma C04_gray.gray_unique (pyvc)",
+                        formula="implies(1 <= n and forall(lambda j: g1[j] == ite(PARG(g1, j, n) == 1, l[j] - 1 - c[j], c[j]) and "
+                                "g2[j] == ite(PARG(g2, j, n) == 1, l[j] - 1 - c[j], c[j]), 0, n), forall(lambda j: g1[j] == g2[j], 0, n))"),
+})
+GHOST_EXTRA_SRC = '''
+def val_unique(c1, c2, l, n):
+    i = n
+    while i > 0:
+        i = i - 1
+    return 0
+
+
+def gray_unique(g1, g2, c, l, n):
+    i = n - 1
+    while i > 0:
+        i = i - 1
+    return 0
+
+
+def state_is_a_function_of_the_offset(n, g1, c1, g2, c2, l, off, omax1, omax2):
+    return 0
+'''
+DIGITS2 = "forall(lambda q: l[q] >= 1 and 0 <= c1[q] and c1[q] < l[q] and 0 <= c2[q] and c2[q] < l[q], 0, n)"
+GHOST_EXTRA = {
+    "val_unique": dict(
+        params=[("c1", SEQ), ("c2", SEQ), ("l", SEQ), ("n", "Int")], returns="Int",
+        requires=["0 <= n", DIGITS2, "VAL(c1, l, n) == VAL(c2, l, n)"], ensures=["forall(lambda q: c1[q] == c2[q], 0, n)"],
+        loops={"0": dict(invariant=["0 <= i", "i <= n", "VAL(c1, l, i) == VAL(c2, l, i)", "forall(lambda q: c1[q] == c2[q], i, n)"])},
+        ghost={"loop[0].start": [
+            "use('VAL_unfold', c1, l, i)", "use('VAL_unfold', c2, l, i)",
+            "use('VAL_bound', c1, l, i - 1)", "use('VAL_bound', c2, l, i - 1)",
+            # a difference of one digit or more outweighs everything below it
+            "use('mul_le', 1, LIML(l, i - 1), c1[i - 1] - c2[i - 1], LIML(l, i - 1))",
+            "use('mul_le', 1, LIML(l, i - 1), c2[i - 1] - c1[i - 1], LIML(l, i - 1))"]}),
+    "gray_unique": dict(
+        params=[("g1", SEQ), ("g2", SEQ), ("c", SEQ), ("l", SEQ), ("n", "Int")], returns="Int",
+        requires=["1 <= n", "forall(lambda j: g1[j] == ite(PARG(g1, j, n) == 1, l[j] - 1 - c[j], c[j]) and "
+                            "g2[j] == ite(PARG(g2, j, n) == 1, l[j] - 1 - c[j], c[j]), 0, n)"],
+        ensures=["forall(lambda j: g1[j] == g2[j], 0, n)"],
+        loops={"0": dict(invariant=["0 <= i", "i <= n - 1", "forall(lambda j: g1[j] == g2[j], i, n)"])},
+        ghost={"loop[0].before": ["use('PARG_unfold', g1, n - 1, n)", "use('PARG_unfold', g2, n - 1, n)"],
+               "loop[0].start": ["use('PARG_same', g1, g2, i, n)"]}),
+    # two counter objects over the same limits that both satisfy the class invariant at the same offset hold the same code
+    "state_is_a_function_of_the_offset": dict(
+        params=[("n", "Int"), ("g1", SEQ), ("c1", SEQ), ("g2", SEQ), ("c2", SEQ), ("l", SEQ), ("off", "Int"), ("omax1", "Int"), ("omax2", "Int")],
+        returns="Int",
+        requires=inv_body_of("g1", "c1", "l", "off", "omax1", "n") + inv_body_of("g2", "c2", "l", "off", "omax2", "n"),
+        ensures=["forall(lambda j: g1[j] == g2[j] and c1[j] == c2[j], 0, n)"],
+        ghost={"entry": ["use('VAL_unique', c1, c2, l, n)", "let('c_', c1)"],
+               "exit": ["use('GRAY_unique', g1, g2, c1, l, n)"]}),
+}
+
+# ------------------------------------------------------------------------------------------ the class
+FIELDS = [("f_num_digits", "Int"), ("f_gray_code", SEQ), ("f_n_ary_limits", SEQ), ("f_counter_chain", SEQ),
+          ("f_offset_max", "Int"), ("f_offset", "Int")]
 
 
 # GCINV abbreviates inv_body (a definition): callers of the class (the permanent kernels) carry it opaquely
@@ -427,8 +488,8 @@ def method(name, type_prefix=None, contract=None):
 
 
 def check_ghost(run, only=None):
-    tree = ast.parse(GHOST_SRC)
-    for fn, contract in GHOST.items():
+    tree = ast.parse(GHOST_SRC + GHOST_EXTRA_SRC)
+    for fn, contract in list(GHOST.items()) + list(GHOST_EXTRA.items()):
         if only and fn not in only:
             continue
         node = next(n for n in tree.body if isinstance(n, ast.FunctionDef) and n.name == fn)
